@@ -579,6 +579,12 @@ func (w *rWorld) close() {
 // runRoutingTrace executes one trace inside a bubble. `next` yields the next op given the world
 // (nil ends the trace); the first op must be `begin ns nt cap seed`.
 func runRoutingTrace(t *testing.T, e *Env, begin string, next func(w *rWorld, i int) string) (ops []string, viol []map[string]any) {
+	// a trace settles in milliseconds; one that does not (goroutines of the real code spinning or blocked on a lock, which a
+	// bubble cannot see as "durably blocked") is a hang of the stream machinery on this op list
+	stopWatchdog := e.Watchdog(180*time.Second, func() map[string]any {
+		return map[string]any{"what": "the routing trace did not settle: the receivers / senders are spinning or dead-locked while processing the last operation", "ops": append([]string{}, ops...)}
+	})
+	defer stopWatchdog()
 	synctest.Test(t, func(t *testing.T) {
 		f := strings.Fields(begin)
 		ns, _ := strconv.Atoi(f[1])
